@@ -79,6 +79,7 @@ type Frame struct {
 	unaliased  string            // set when a clause read an interface ghost field of the receiver that has no abstraction
 	aliasSelf  *Val              // the interface value wrapping the receiver
 	aliasRecv  *Val              // the receiver itself
+	rangeDom  map[*ssa.Range]string // map range: the key set of the map when the iteration started
 	atExit    bool // evaluating postconditions: a local name denotes a definition that reaches every return
 	curBlock  *ssa.BasicBlock
 	dryHeader *ssa.BasicBlock
